@@ -93,7 +93,7 @@ fn g_step<G: Grp>(rng: &mut StdRng, out: &mut Out, regs: &mut [Option<G>; NG], k
     let d = rng.gen_range(0..NG);
     let fresh = |k: Fr| if step % 6 == 0 { Some(k) } else { None };
     let (a, bb) = (live(regs, rng), live(regs, rng));
-    let choice = rng.gen_range(0..if rescale { 20 } else { 18 });
+    let choice = rng.gen_range(0..if rescale { 21 } else { 18 });
     match (choice, a, bb) {
         (0, _, _) | (_, None, _) | (_, _, None) => {
             let zero = rng.gen_range(0..4) == 0;
@@ -186,7 +186,7 @@ fn g_step<G: Grp>(rng: &mut StdRng, out: &mut Out, regs: &mut [Option<G>; NG], k
             // explicit rescaling through the public constructor (not part of C16's alphabet; used by the C03 programs)
             let x = regs[a].unwrap();
             let tag = if x.is_zero_() { "S" } else { "S" };
-            let y = G::rep(rng, x, tag);
+            let y = if rng.gen::<bool>() { x.rescale_pattern(rng).unwrap_or_else(|| G::rep(rng, x, tag)) } else { G::rep(rng, x, tag) };
             out.call("m.grescale", json!({"G": g, "d": base + d, "a": base + a}), || {
                 regs[d] = Some(y);
                 ks[d] = ks[a];
@@ -209,6 +209,7 @@ pub fn run_gmachine(a: &Args, out: &mut Out) {
     let pool = load_pool(&a.pool, "Fr");
     let mut rng = rng_from(a.seed.wrapping_mul(1000003).wrapping_add(a.part), "gmachine");
     let focus = a.focus.as_str(); // "group" (C16), "prep" (C03 histories), "pair" (C01/C16 with pairings)
+    let _ = PATTERN_ZS.get_or_init(|| inv_pattern_zs(&load_pool(&a.pool, "Fq"), a.seed, 1200));
     let small = a.part % 3 == 0;
     let mut m = GM { fr: [None; NFR], g1: [None; NG], k1: [Fr::zero(); NG], g2: [None; NG], k2: [Fr::zero(); NG], gt: [None; NGT], prep: [None, None] };
     out.call("m.init", json!({"n": NREG}), || outs! {});
@@ -259,9 +260,9 @@ pub fn run_gmachine(a: &Args, out: &mut Out) {
                 }
             }
         } else if c < wg1 {
-            g_step::<G1>(&mut rng, out, &mut m.g1, &mut m.k1, &m.fr, G10, focus == "prep", step);
+            g_step::<G1>(&mut rng, out, &mut m.g1, &mut m.k1, &m.fr, G10, focus == "prep" || a.part % 2 == 1, step);
         } else if c < wg2 {
-            g_step::<G2>(&mut rng, out, &mut m.g2, &mut m.k2, &m.fr, G20, focus == "prep", step);
+            g_step::<G2>(&mut rng, out, &mut m.g2, &mut m.k2, &m.fr, G20, focus == "prep" || a.part % 2 == 1, step);
         } else {
             // pairings, prepared values, Gt arithmetic
             let d = rng.gen_range(0..NGT);
